@@ -197,14 +197,43 @@ func c14BigReprs(t string) []any {
 	return out
 }
 
-var c14BigTemplates = []string{"find_first('abcabc', 'c', v)", "find_first('abcabc', 'c', `0`, v)", "find_last('abcabc', 'c', v)", "find_last('abcabc', 'c', `1`, v)", "split('a,b,c', ',', v)", "replace('aaa', 'a', 'b', v)", "v == w", "v < w", "v >= w", "[v] == [w]", "contains([w], v)", "sort([v, w])", "max([v, w]) == v", "v + `0` == w + `0`", "v - w", "type(v)", "!v", "to_number(v) == w", "abs(v) == abs(w)", "xs[?@ == v]", "sort_by(rs, &k)[*].id", "min_by(rs, &k).id", "v // `2` == w // `2`", "v % `7` == w % `7`"}
+var c14BigTemplates = []string{"v % d", "v // d", "[v % d, v // d]", "(v // d) * d + v % d == v", "v % d == w % d", "-v % d", "v % (d + d)",
+	"find_first('abcabc', 'c', v)", "find_first('abcabc', 'c', `0`, v)", "find_last('abcabc', 'c', v)", "find_last('abcabc', 'c', `1`, v)", "split('a,b,c', ',', v)", "replace('aaa', 'a', 'b', v)", "v == w", "v < w", "v >= w", "[v] == [w]", "contains([w], v)", "sort([v, w])", "max([v, w]) == v", "v + `0` == w + `0`", "v - w", "type(v)", "!v", "to_number(v) == w", "abs(v) == abs(w)", "xs[?@ == v]", "sort_by(rs, &k)[*].id", "min_by(rs, &k).id", "v // `2` == w // `2`", "v % `7` == w % `7`"}
 
 func c14Boundary(c *Ctx, idx int) {
 	t := c14Big[idx%len(c14Big)]
 	text := c14BigTemplates[idx/len(c14Big)%len(c14BigTemplates)]
 	reprs := c14BigReprs(t)
+	if strings.Contains(text, "//") {
+		// the quotient must be exactly representable in every kind (the
+		// property's precondition): only for |v| <= 2^52
+		if n := gen.Num(t); new(big.Int).Abs(n.R.Num()).BitLen() > 52 {
+			return
+		}
+	}
+	// d: a small divisor in the same family of representations as v
+	small := func(v any, k int64) any {
+		switch v.(type) {
+		case float64:
+			return float64(k)
+		case float32:
+			return float32(k)
+		case decimal128.Decimal:
+			return decimal128.FromInt64(k)
+		case int64:
+			return k
+		case int:
+			return int(k)
+		case uint64:
+			return uint64(k)
+		case uint:
+			return uint(k)
+		}
+		return json.Number(fmt.Sprint(k))
+	}
+	dk := []int64{3, 7, 10, 1000003}[idx%4]
 	mk := func(v, w any) any {
-		return map[string]any{"v": v, "w": w, "xs": []any{w, json.Number("1"), v}, "rs": []any{map[string]any{"id": "a", "k": v}, map[string]any{"id": "b", "k": json.Number("5")}, map[string]any{"id": "c", "k": w}}}
+		return map[string]any{"v": v, "w": w, "d": small(v, dk), "xs": []any{w, json.Number("1"), v}, "rs": []any{map[string]any{"id": "a", "k": v}, map[string]any{"id": "b", "k": json.Number("5")}, map[string]any{"id": "c", "k": w}}}
 	}
 	base := mk(json.Number(t), json.Number(t))
 	lb := c.LibSearch(text, base)
